@@ -23,9 +23,18 @@ def expected(ver, a, group):
     return "/".join(out)
 
 
+def twin_first(ver, pfx, s):
+    """for a third of the v3 vectors: the same metrics under the OTHER minor version are scored first
+    (results must not depend on that); done before anything else touches the vector, and again in replays"""
+    if ver == "3" and len(s) % 3 == 0:
+        other = "CVSS:3.1/" if pfx == "CVSS:3.0/" else "CVSS:3.0/"
+        obs.construct(ver, other + s[len(pfx):])
+
+
 def check(ctx, ver, pfx, a, s):
     V = VOCAB[ver]
     rp = {"ver": ver, "s": s, "assignment": a, "prefix": pfx}
+    twin_first(ver, pfx, s)
     o, e = obs.construct(ver, s, warm=True)
     if o is None:
         ctx.violation("v%s:valid-vector-rejected" % ver, "accepted vector rejected", s, "accepted", e, replay=rp)
@@ -66,8 +75,15 @@ def run(ctx):
         for s in core.singletons(ver, rng, ctx.n(40, 700)):
             pfx, fields = obs.parse_fields(ver, s)
             cases.append((ver, pfx, dict(fields), s))
+    # every mandatory-only v3 vector of one minor version (the other minor version is its twin)
+    from .. import spaces
+    for i, a in enumerate(spaces.all_base("3")):
+        pfx = core.PREFIX["3"][(i + ctx.seed) % 2]
+        cases.append(("3", pfx, a, core.render("3", a, prefix=pfx)))
     ctx.count(len(cases))
     ctx.sample({"vector": cases[0][3]})
+    for ver, pfx, a, s in cases:
+        twin_first(ver, pfx, s)
     for ver in "23":
         flat = [(v, s) for v, _, _, s in cases if v == ver]
         if ctx.model_available and flat:
